@@ -216,7 +216,7 @@ class Names:
 
 def tdir(ino, D, names):
     return {"ino": ino, "idx": D["idx"], "inl": D["inl"], "dd": D["dd"], "ok": D["ok"],
-            "ls": [[names.nid(n), i, ft] for n, i, ft in D["ls"]],
+            "ls": sorted([names.nid(n), i, ft] for n, i, ft in D["ls"]),      # by name id (Trace_Dir!LsOf bisects); the order of delivery is judged in Obs._dir
             "blks": [[[x[0], x[1], x[2], x[3], names.nid(x[4])] for x in b] for b in D["blks"]],
             "dx": {"lv": D["lv"], "nodes": [[n[0], n[1], [list(e) for e in n[3]]] for n in D["nodes"]]}}
 
@@ -579,6 +579,13 @@ def model_check(ev, tier, work):
               workers=JOBS, timeout=1800, xmx="4g")
     ev.add_tlc(r, "HTree: scaled limits (root holds 3, node holds 3, leaf holds 3 names of 255 bytes), every insertion order / removal")
     res.append(("HTree", r))
+    # the same with `e2fsck -D` (HTree!RebuildDx) as a third operation: the rebuilt tree satisfies every invariant, has the form
+    # IsRebuiltDx that the trace specification demands, and the level TreeLevels decides; insertions continue on rebuilt trees
+    c = cfg("MC_HTree_rebuild.cfg", spec="Spec", constants=dict(N=8, BS=560, RootLim=2, NodeLim=3, MaxOps=6 if tier == "quick" else 8, WithRebuild="TRUE"),
+            invariants=["InvDx", "InvLookup", "InvLive", "InvChain", "InvDisguise", "InvRefusal", "InvRebuiltForm"])
+    r = T.tlc(os.path.join(SPEC, "MC_HTree.tla"), c, workers=JOBS, timeout=1800, xmx="4g")
+    ev.add_tlc(r, "HTree + rebuild: root holds 2, node holds 3, leaf holds 2 long names; every sequence of insert / remove / rebuild of length <= %d" % (6 if tier == "quick" else 8))
+    res.append(("HTree-rebuild", r))
     for nm, r in res:
         if r.violated:
             return "model: invariant %s violated in %s (design-level counterexample)\n%s" % (r.violated, nm, r.out[-3000:])
@@ -588,14 +595,19 @@ def model_check(ev, tier, work):
 
 
 # ------------------------------------------------------------------------------------------------ the check
-def trace_cfg(work, prof):
+def trace_cfg(work, prof, dev_on=None):
+    """dev_on: name of one literal deviation (Dir.tla Dev* constant) to enable -- used only to NAME the deviation a rejected behaviour shows"""
     feat, ftflag, dirnlink, inline = PROFILES[prof]
-    p = os.path.join(work, "Trace_Dir_%s.cfg" % prof)
+    p = os.path.join(work, "Trace_Dir_%s%s.cfg" % (prof, "_" + dev_on if dev_on else ""))
     consts = dict(Root=2, FirstIno=11, NInodes=2048, LinkMax=65000, LinkMod=65536, DirNlink="TRUE" if dirnlink else "FALSE",
                   FileType="TRUE" if ftflag else "FALSE")
     consts.update(DEV)
+    if dev_on:
+        consts[dev_on] = "TRUE"
+    # with a deviation enabled only conformance is asked (is this a behaviour of specification + deviation?): the deviation
+    # is the very thing that breaks the invariants
     T.write_cfg(p, spec="TraceSpec", constants=consts,
-                invariants=["InvTypeOK", "InvLinksRule", "InvNoFreeReferenced", "InvBalancedIsConsistent", "InvNoLeak", "InvLayout"],
+                invariants=["InvTypeOK"] if dev_on else ["InvTypeOK", "InvLinksRule", "InvNoFreeReferenced", "InvBalancedIsConsistent", "InvNoLeak", "InvLayout"],
                 postcondition="TraceAccepted")
     return p
 
@@ -644,14 +656,21 @@ def bname(i, ln):
     return ("b%05d_" % i).ljust(ln, "y")[:max(ln, 7)]
 
 
-def add_ops(front, lo, hi, ln):
+def kind_of(front, i, few):
+    """which kind of object name i of the large directory is (16 = a hard link to the holder file)"""
+    if front != "lib":
+        return (1, 5, 9, 13)[i % 4]
+    return i % 16 if (i < 64 or not few) else 16
+
+
+def add_ops(front, lo, hi, ln, few=False):
     """operations that create the names lo..hi-1 of the large directory: through the library mostly hard links to one file
     (so that thousands of names need a handful of inodes) with an object of every other kind in between; through debugfs
-    (which has no counted hard link) objects of rotating kinds"""
+    (which has no counted hard link) objects of rotating kinds; few = only the first 64 names get objects of their own"""
     ops = []
     for i in range(lo, hi):
         n = bname(i, ln)
-        k = i % 16 if front == "lib" else (1, 5, 9, 13)[i % 4]
+        k = kind_of(front, i, few)
         if i == 0 or k == 1: ops.append("create %d %s 0" % (BIGDIR, n))
         elif k == 5: ops.append("mkdir %d %s" % (BIGDIR, n))
         elif k == 9: ops.append("symlink %d %s %d" % (BIGDIR, n, 10 if i % 32 < 16 else 200))
@@ -660,8 +679,8 @@ def add_ops(front, lo, hi, ln):
     return ops
 
 
-def del_op(i, ln, front):
-    k = i % 16 if front == "lib" else (1, 5, 9, 13)[i % 4]
+def del_op(i, ln, front, few=False):
+    k = kind_of(front, i, few)
     return ("rmdir %d %s" if (k == 5 and i != 0) else "rm %d %s") % (BIGDIR, bname(i, ln))
 
 
@@ -669,18 +688,13 @@ def runs(ops, k=40):
     return [{"kind": "step", "ops": ops[i:i + k]} for i in range(0, len(ops), k)]
 
 
-def fresh_script(front, n, ln, stepwise):
-    """a linear directory of exactly n names, re-indexed; one name replaced; re-indexed again"""
-    build = add_ops(front, 0, n, ln)
-    steps = [{"kind": "step", "ops": ["mkdir 2 big"]}]
-    prep = None
-    if stepwise:
-        steps += runs(build)
-    else:
-        prep = {"what": "%d names" % n, "ops": ["mkdir 2 big"] + build, "want": [[2, ["lost+found", "big"]], [BIGDIR, [bname(i, ln) for i in range(n)]]]}
-        steps = []
-    steps += [{"kind": "fsckD", "ops": []}, {"kind": "step", "ops": [del_op(3, ln, front)]}, {"kind": "step", "ops": add_ops(front, n, n + 1, ln)},
-              {"kind": "fsckD", "ops": []}, {"kind": "fsckn", "ops": []}]
+def fresh_script(front, n, ln, few):
+    """a linear directory of exactly n names (built through the library before the first observation, which must show
+    exactly these names), re-indexed; one name replaced; re-indexed again"""
+    prep = {"what": "%d names" % n, "ops": ["mkdir 2 big"] + add_ops("lib", 0, n, ln, few),
+            "want": [[2, ["lost+found", "big"]], [BIGDIR, [bname(i, ln) for i in range(n)]]]}
+    steps = [{"kind": "fsckD", "ops": []}, {"kind": "step", "ops": [del_op(3, ln, "lib", few)]}, {"kind": "step", "ops": add_ops(front, n, n + 1, ln, few)},
+             {"kind": "fsckD", "ops": []}, {"kind": "fsckn", "ops": []}]
     return steps, prep
 
 
@@ -694,15 +708,15 @@ def growth_script(front, targets, ln, stepwise):
         early = min(40, t0)
         steps += runs(add_ops(front, 0, early, ln)) + [{"kind": "fsckD", "ops": []}] + runs(add_ops(front, early, t0, ln))
     else:
-        prep = {"what": "%d names" % t0, "ops": ["mkdir 2 big"] + add_ops(front, 0, t0, ln), "want": [[2, ["lost+found", "big"]], [BIGDIR, [bname(i, ln) for i in range(t0)]]]}
+        prep = {"what": "%d names" % t0, "ops": ["mkdir 2 big"] + add_ops(front, 0, t0, ln, True), "want": [[2, ["lost+found", "big"]], [BIGDIR, [bname(i, ln) for i in range(t0)]]]}
         steps = []
     steps.append({"kind": "fsckD", "ops": []})
     have = t0
     for t in targets[1:]:
-        steps += [{"kind": "step", "ops": add_ops(front, have, t, ln)}, {"kind": "fsckD", "ops": []}]
+        steps += [{"kind": "step", "ops": add_ops(front, have, t, ln, not stepwise)}, {"kind": "fsckD", "ops": []}]
         have = t
     # back down across the last boundary: remove one leaf's worth of names, re-index
-    steps += [{"kind": "step", "ops": [del_op(i, ln, front) for i in range(20, 20 + (targets[-1] - targets[-3] if len(targets) > 2 else 1))]},
+    steps += [{"kind": "step", "ops": [del_op(i, ln, front, not stepwise) for i in range(20, 20 + (targets[-1] - targets[-3] if len(targets) > 2 else 1))]},
               {"kind": "fsckD", "ops": []}, {"kind": "fsckn", "ops": []}]
     return steps, prep
 
@@ -715,7 +729,19 @@ def boundary_specs(tier, cat, rng):
         if e["leaves"] * e["per"] + 1 > MAX_NAMES[tier]:
             skipped.append(e); continue
         groups.setdefault((e["len"], e["bs"], e["csum"]), []).append(e)
+    # quick: everything at 1 KiB; of the larger block sizes the two sizes on either side of the level decision, for one (seeded) checksum setting
+    big_csum = rng.choice([0, 1])
     for (ln, bs, csum), els in sorted(groups.items()):
+        if tier == "quick" and bs != 1024:
+            if csum != big_csum:
+                skipped += els; continue
+            keep = [e for e in els if e["kind"] == "root" and e["leaves"] - e["at"] in (0, 1)]
+            skipped += [e for e in els if e not in keep]
+            for e in keep:
+                sc, prep = fresh_script("lib", e["leaves"] * e["per"], ln, True)
+                specs.append(dict(prof="dxcsum" if csum else "dx", bs=bs, front="lib", seed=1, nsteps=len(sc), raw=0, big=1, script=sc, prep=prep,
+                                  cat=dict(kind="fresh", bs=bs, csum=csum, len=ln, leaves=[e["leaves"]])))
+            continue
         prof = "dxcsum" if csum else "dx"
         per = els[0]["per"]
         leaves = sorted({e["leaves"] for e in els})
@@ -729,8 +755,10 @@ def boundary_specs(tier, cat, rng):
                               cat=dict(kind="growth", bs=bs, csum=csum, len=ln, leaves=leaves)))
         # every catalogued size built as a linear directory and indexed for the first time
         for L in leaves:
-            fe = "lib" if (not stepwise or (L + csum) % 2) else "dbg"
-            sc, prep = fresh_script(fe, L * per, ln, stepwise)
+            if tier == "quick" and not any(e["leaves"] == L and e["leaves"] - e["at"] in (0, 1) for e in els):
+                continue                      # quick: first-time indexing only at c and c + 1 (the growth above visits every size)
+            fe = "lib" if (L + csum) % 2 else "dbg"
+            sc, prep = fresh_script(fe, L * per, ln, bs != 1024)
             specs.append(dict(prof=prof, bs=bs, front=fe, seed=1, nsteps=len(sc), raw=0, big=1, script=sc, prep=prep,
                               cat=dict(kind="fresh", bs=bs, csum=csum, len=ln, leaves=[L])))
     return specs, skipped
@@ -846,12 +874,34 @@ def run(tier):
             if res["broken"]:
                 die_broken("TLC failed on a trace chunk (%s): %s\n%s" % (prof, res["broken"][0]["error"], res["broken"][0]["out_tail"][-1500:]))
             ev.cov["states"] += res["distinct"]; ev.cov["transitions"] += res["generated"]
-            for f in res["failures"]:
-                bi = f["behaviour"]
+            failed = sorted({f["behaviour"] for f in res["failures"]})
+            # a rejected behaviour that IS a behaviour of the specification with exactly one literal deviation enabled shows that
+            # deviation: it is reported under the deviation's name (a listed known finding prints KNOWN-FINDING, anything else VIOLATION)
+            named = {}
+            for dev in sorted(DEV):
+                rest = [bi for bi in failed if bi not in named]
+                if not rest:
+                    break
+                r2 = tracecheck.validate([tb[bi] for bi in rest], os.path.join(SPEC, "Trace_Dir.tla"), trace_cfg(work, prof, dev), work,
+                                         chunk_lines=250, jobs=JOBS, timeout=1500)
+                if r2["broken"]:
+                    continue
+                bad = {f["behaviour"] for f in r2["failures"]}
+                for k, bi in enumerate(rest):
+                    if k not in bad:
+                        named[bi] = dev
+            for bi in failed:
                 rej, matched, inv, tail, _ = tracecheck.confirm(tb[bi], os.path.join(SPEC, "Trace_Dir.tla"), cfgp, work, timeout=900)
                 if not rej:
                     continue
                 nfail += 1
+                if bi in named:
+                    k = matched if matched is not None else 0
+                    ln = json.loads(tb[bi][k]) if k < len(tb[bi]) else {"e": "(end)", "ops": []}
+                    vd.violation(named[bi], "the code shows the literal deviation %s (rejected as specified at line %d, %s; accepted with the deviation enabled; front end %s, profile %s/%d)"
+                                 % (named[bi], k, ln["e"], sub[bi]["spec"]["front"], prof, sub[bi]["spec"]["bs"]),
+                                 {"spec": sub[bi]["spec"], "steps": sub[bi]["steps"], "first_unmatched_line": k, "deviation": named[bi]})
+                    continue
                 report(vd, sub[bi], tb[bi], matched, inv, tail)
         ev.cov["trace_lines_validated"] = total_lines
         ev.cov["traces_validated_against_impl"] = len(behs) - nfail
@@ -863,6 +913,24 @@ def run(tier):
             if nontrivial(bh):
                 ev.nontrivial(hashlib.sha1(json.dumps(bh["steps"], sort_keys=True).encode()).hexdigest())
         ev.cov["exercised"] = tot
+        planned, seen = set(), set()
+        for bh in behs:
+            c = bh["spec"].get("cat") or {}
+            if c.get("kind") not in ("growth", "fresh"):
+                continue
+            planned |= {(c["bs"], c["csum"], L) for L in c["leaves"]}
+            for x in bh["lines"]:
+                if x["e"] != "fsckD":
+                    continue
+                for d in x["dirs"]:
+                    if d["ino"] == BIGDIR and d["idx"]:
+                        seen.add((c["bs"], c["csum"], len(d["blks"]) - len(d["dx"]["nodes"]), d["dx"]["lv"]))
+        want = {(e["bs"], e["csum"], e["leaves"], e["levels"]) for e in cat if (e["bs"], e["csum"], e["leaves"]) in planned}
+        ev.cov["boundary_catalogue"] = {"elements": len({(e["bs"], e["csum"], e["leaves"]) for e in cat}), "planned": len(want), "rebuilt_and_validated": len(want & seen),
+                                        "not_built_in_this_tier": sorted({"%d/%s/%s@%d" % (e["bs"], "csum" if e["csum"] else "nocsum", e["kind"], e["leaves"]) for e in cat
+                                                                          if (e["bs"], e["csum"], e["leaves"]) not in planned})}
+        if not vd.viol and want - seen:
+            die_broken("boundary catalogue elements not reached by the behaviours built for them: %s" % sorted(want - seen)[:6])
         ev.cov["rule"] = ("histories of namespace operations chosen (seeded) from the observed state, run through libext2fs (harness/dirdrv.c) and debugfs -w -f "
                           "on 6 feature profiles x {1k,4k}, interleaved with e2fsck -fyD, ending in e2fsck -fn; non-trivial = >= 1 removal that coalesces/clears "
                           "a directory slot and >= 1 removal that frees an inode; distinct by operation sequence")
